@@ -492,7 +492,8 @@ def oracle_c09(rep, scn, replay, obs, root, report):
         if not changed and o["outcome"] != ["exit", 0]:
             report("dh-false-alarm", i, ["exit", 0], o["outcome"], "verify -dh fails on a tree identical to what every generation recorded")
         if changed and o["outcome"] != ["exit", 12]:
-            sig = "dh-missed-change" if every_format_fails else "dh-missed-change-some-format-still-verifies"
+            root_has_dh = any(g["root"] for g in hists[""])
+            sig = ("dh-missed-change" if every_format_fails else "dh-missed-change-some-format-still-verifies") if root_has_dh else "dh-missed-change:root-history-has-no-directory-hashes"
             report(sig, i, ["exit", 12], o["outcome"], f"verify -dh does not fail although recorded directory hashes no longer match (formats with mismatches: {sorted(mism)}, recorded root formats: {sorted(fmts_root)})")
 
 
